@@ -10,6 +10,8 @@ impl<'a, B: ?Sized> Eq for Cow<'a, B> {}
 pub open spec fn cow_bytes(c: Cow<'_, str>) -> Seq<u8> {
     match c { Cow::Borrowed(s) => s.spec_bytes(), Cow::Owned(s) => str_bytes(s@) }
 }
+/// byte views of a requirement list
+pub open spec fn cows_bytes(c: Seq<Cow<'_, str>>) -> Seq<Seq<u8>> { Seq::new(c.len(), |i: int| cow_bytes(c[i])) }
 
 /// `s.starts_with(c)` for a char pattern
 #[verifier::external_body]
@@ -268,4 +270,67 @@ pub fn str_split_at_ascii<'a>(s: &'a str, mid: usize) -> (r: (&'a str, &'a str))
 #[verifier::external_body]
 pub fn string_as_str(s: &String) -> (r: &str)
     ensures r.spec_bytes() == str_bytes(s@), r@ == s@
+{ unimplemented!() }
+
+// ---- VecSignedHeaderRequirements mutators (canonical.rs add_* / remove_*) ----
+/// `s.to_ascii_lowercase()` on a str: bytes A-Z are lower-cased, every other byte (non-ASCII included) is kept
+#[verifier::external_body]
+pub fn str_to_ascii_lowercase(s: &str) -> (r: String)
+    ensures str_bytes(r@) == lower(s.spec_bytes())
+{ unimplemented!() }
+/// `cow == &string` for Cow<str> and String (text equality)
+#[verifier::external_body]
+pub fn cow_eq_string(c: &Cow<'_, str>, s: &String) -> (r: bool)
+    ensures r == (cow_bytes(*c) == str_bytes(s@))
+{ unimplemented!() }
+pub open spec fn seqs_without_lower(list: Seq<Seq<u8>>, lname: Seq<u8>) -> Seq<Seq<u8>> { list.filter(|b: Seq<u8>| lower(b) != lname) }
+/// `v.retain(|h| h.to_ascii_lowercase() != name)` on a Vec<Cow<str>>: keeps, in order, exactly the elements whose ASCII-lower-cased text differs
+#[verifier::external_body]
+pub fn vec_cow_retain_lower_ne(v: &mut Vec<Cow<'static, str>>, name: &String)
+    ensures cows_bytes(final(v)@) == seqs_without_lower(cows_bytes(old(v)@), str_bytes(name@))
+{ unimplemented!() }
+
+/// the text `(&a).into()` yields for a generic `A` with `for<'x> &'x A: Into<String>` (uninterpreted: whatever the caller's conversion gives)
+pub uninterp spec fn into_string_bytes<A: ?Sized>(a: &A) -> Seq<u8>;
+pub open spec fn refs_into_bytes<A: ?Sized>(s: Seq<&A>) -> Seq<Seq<u8>> { Seq::new(s.len(), |i: int| into_string_bytes::<A>(s[i])) }
+/// `xs.iter().map(|s| Cow::Owned((*s).into())).collect()` into a Vec<Cow<'static, str>>: one owned entry per element, in order
+#[verifier::external_body]
+pub fn slice_refs_into_cows<A: ?Sized>(xs: &[&A]) -> (r: Vec<Cow<'static, str>>)
+    where for<'x> &'x A: Into<String>
+    ensures cows_bytes(r@) == refs_into_bytes::<A>(xs@)
+{ unimplemented!() }
+
+// ---- byte-slice split iterators (canonical.rs get_content_type_and_charset) ----
+/// what a `split` / `splitn` iterator over a byte slice still has to yield: `all` the pieces, `pos` pieces already taken
+pub struct BytePieces<'a> { pub src: &'a [u8], pub ghost all: Seq<Seq<u8>>, pub ghost pos: int }
+impl<'a> BytePieces<'a> {
+    /// `Iterator::next`
+    #[verifier::external_body]
+    pub fn next(&mut self) -> (r: Option<&'a [u8]>)
+        ensures
+            final(self).all == old(self).all,
+            0 <= old(self).pos < old(self).all.len() ==> r is Some && r->Some_0@ == old(self).all[old(self).pos] && final(self).pos == old(self).pos + 1,
+            old(self).pos >= old(self).all.len() ==> r is None && final(self).pos == old(self).pos,
+    { unimplemented!() }
+}
+/// the `;`-separated pieces of a header value, each with surrounding ASCII whitespace removed
+pub open spec fn trimmed_pieces(s: Seq<u8>, sep: u8) -> Seq<Seq<u8>> { Seq::new(split(s, sep).len(), |i: int| trim_ws(split(s, sep)[i])) }
+/// `s.split(|c| *c == sep).map(trim_ascii)` (trim_ascii itself is verified in unit trim against trim_ws)
+#[verifier::external_body]
+pub fn bytes_split_map_trim<'a>(s: &'a [u8], sep: u8) -> (r: BytePieces<'a>)
+    ensures r.pos == 0, r.all == trimmed_pieces(s@, sep)
+{ unimplemented!() }
+/// `s.splitn(2, |c| *c == sep)`: the text before the first separator and the text after it, or the whole text when there is no separator
+#[verifier::external_body]
+pub fn bytes_splitn2_iter<'a>(s: &'a [u8], sep: u8) -> (r: BytePieces<'a>)
+    ensures r.pos == 0, r.all == (if s@.contains(sep) { seq![split_first(s@, sep).0, split_first(s@, sep).1] } else { seq![s@] })
+{ unimplemented!() }
+/// `s.to_lowercase() == t` for a String whose chars are all below U+0100 and an ASCII `t`: Unicode lower-casing maps A-Z to a-z and every
+/// char in U+0080..U+00FF to a non-ASCII char, so the comparison holds exactly when the ASCII-lower-cased text equals `t`
+pub open spec fn ascii_lower_char(c: char) -> char { if 'A' <= c <= 'Z' { ((c as u8) + 32) as char } else { c } }
+pub open spec fn ascii_lower_chars(s: Seq<char>) -> Seq<char> { Seq::new(s.len(), |i: int| ascii_lower_char(s[i])) }
+#[verifier::external_body]
+pub fn string_to_lowercase_eq_str(s: &String, t: &str) -> (r: bool)
+    requires latin1_only(s@), all_ascii(t.spec_bytes())
+    ensures r == (ascii_lower_chars(s@) == t@)
 { unimplemented!() }
